@@ -696,6 +696,19 @@ def run(scenario):
             if any(r_['injected'] for r_ in node.kernel.requests if abs(r_['t'] - got) < 1e-9):
                 continue
             q = quad(w, ch, idx)
+            # the requester may refuse an answer that is not drawn from what it asked for (a responder without PFS answering a PFS offer,
+            # selectors outside the offer, another mode): only an answer it has to accept is judged (thorough soak, seeds 501020125 / 501013683)
+            from sim.wiretap import ts_subset
+            off = next((p_ for p_ in ch['offer'] if p_['num'] == ch['chosen']['num']), None)
+            tset = lambda p_: {(t_['type'], t_['id'], t_.get('keylen')) for t_ in p_['transforms']}
+            acceptable = off is not None and off['proto'] == ch['chosen']['proto'] and tset(ch['chosen']) <= tset(off) and \
+                {t_['type'] for t_ in ch['chosen']['transforms']} == {t_['type'] for t_ in off['transforms']} and \
+                len({t_['type'] for t_ in ch['chosen']['transforms']}) == len(ch['chosen']['transforms']) and \
+                ch['transport_q'] == ch['transport_r'] and ch['tsi'] and ch['tsr'] and \
+                any(ts_subset(ch['tsi'][0], x_) for x_ in ch['tsi_offer']) and any(ts_subset(ch['tsr'][0], x_) for x_ in ch['tsr_offer'])
+            if not acceptable:
+                orc_._r('additional_child_sa_answer_refusable')
+                continue
             orc_._r('additional_child_sa_answers_judged')
             if q is not None and q[0] is None and q[2] is None:
                 w.violation(PROP, 'negotiated_child_sa_never_installed', {'requester_role': 'ike_initiator' if ch['req']['h']['I'] else 'ike_responder'},
